@@ -155,6 +155,13 @@ def wide_row_after_sample(v):
   case = v["case"]
   if v["clause"] != "C32.kept" or case["inp"]["headers"]:
     return False
+  if case["out"]["nt"] == 0 and not case["exc"]:
+    # every column that has a cell lies beyond the sampled width: nothing is left, no table is returned
+    rows = kind_rows(case)
+    ws = max([0] + [_span(r) for r in rows[:SAMPLE]])
+    wl = max([0] + [_span(r) for r in rows[SAMPLE:]])
+    req = _required(case["grid"])
+    return wl > ws and bool(req) and min(req) >= ws
   res = _analyse(case)
   return _explained(case, res) and res["cut_col"]
 
